@@ -6,7 +6,8 @@ import TrionModel.Driver.Util
 `.include` / `.dfile` can reach (names are paths relative to the main file's directory, `-` = empty file).
 Reply: `<ok|fail> a=<0|1> c=<close error|-> f=<0|1> | <diag>,<diag>,… | <image>` or `panic` / `fuel` / `loop` / `nomain`.
 `a` = `assemble` returned `Ok`, `c` = the error of `close_segment`, `f` = what `finalize` returned (0 when it
-was not called); `ok` = `c` is `-` and `f` is 1.  `<diag>` = `<hex of file name>:<line>:<col>:<kind>` in the
+was not called); `ok` = `c` is `-` and `f` is 1.  `<diag>` = `<hex of file name>:<line>:<col>:<kind>` (kinds: see `kind`; errors whose
+messages coincide in the Rust `Display` share a kind: `nosuch.<realm>`, `duplicate.<realm>`) in the
 order of `Context::get_errors` (`-` if none); `<image>` = ascending runs `aaaaaaaa:hex…` of the output map (`-` if empty).
 -/
 namespace Trion.Driver.Asm
@@ -15,10 +16,6 @@ open Trion Trion.Driver Trion.Asm
 def hexOf (bs : Bytes) : String := String.join (bs.map fun b => toHex 2 b.toNat)
 
 def showInt (v : Int) : String := if v < 0 then "-" ++ toString v.natAbs else toString v.toNat
-
-/-- every character that is not a letter or digit becomes `_` -/
-def sanitize (s : String) : String :=
-  String.ofList (s.toList.map fun c => if c.isAlphanum then c else '_')
 
 def tyName : ArgTy → String
   | .const => "constant" | .ident => "identifier" | .str => "string" | .add => "addition" | .neg => "negation"
@@ -40,14 +37,14 @@ def lexKind : LexErrKind → String
   | .unexpected c => "ux" ++ toString c
 
 def evalE : EvalE → String
-  | .noSuch _ => "eval.nosuch"
+  | .noSuch _ => "nosuch.local"
   | .badType _ _ => "eval.badtype"
   | .overflow k => "eval.overflow." ++ ovName k
 
 def inner : Inner → String
   | .constReserved _ => "const.reserved"
-  | .constNotFound _ r => "const.notfound." ++ realm r
-  | .constDuplicate _ r => "const.duplicate." ++ realm r
+  | .constNotFound _ r => "nosuch." ++ realm r
+  | .constDuplicate _ r => "duplicate." ++ realm r
   | .constRange mi ma h => "const.range." ++ showInt mi ++ "." ++ showInt ma ++ "." ++ showInt h
   | .constAlignment a h => "const.alignment." ++ toString a ++ "." ++ showInt h
   | .eval e => evalE e
@@ -59,13 +56,13 @@ def inner : Inner → String
   | .constDirDuplicate _ => "constdir.duplicate"
   | .dataInactive => "data.inactive"
   | .dataRange _ ma h => "data.range." ++ showInt ma ++ "." ++ showInt h
-  | .dataHexChar pos c => "data.hexchar." ++ toString pos ++ "." ++ toString c
+  | .dataHexChar pos _ => "data.hexchar." ++ toString pos
   | .dataHexEof => "data.hexeof"
   | .dataFile => "data.file"
   | .dataWrite e => "data.write." ++ segDiag e
-  | .globalNotFound _ r => "global.notfound." ++ realm r
+  | .globalNotFound _ r => "nosuch." ++ realm r
   | .globalDeferred _ r => "global.deferred." ++ realm r
-  | .globalDuplicate _ r => "global.duplicate." ++ realm r
+  | .globalDuplicate _ r => "duplicate." ++ realm r
   | .includeNoSuchFile _ => "include.nosuchfile"
   | .includeFailed _ => "include.failed"
   | .asmValueRange i => "asm.valuerange." ++ toString i
@@ -76,7 +73,7 @@ def inner : Inner → String
 
 def kind : Kind → String
   | .parse (.token e) => "parse.tok." ++ lexKind e.kind
-  | .parse (.expected e h) => "parse.exp." ++ sanitize e ++ "." ++ sanitize h
+  | .parse (.expected e h) => "parse.exp." ++ hexOf e.toUTF8.toList ++ "." ++ hexOf h.toUTF8.toList
   | .inactive => "inactive"
   | .label e => "label." ++ inner e
   | .dirNotFound _ => "dir.notfound"
